@@ -68,7 +68,7 @@ def check(ctx):
     ctx.rule("R3", "sibling closers agree on the resource slots of a spec", floor=2)
     ctx.rule("R4", "_end always closes (finally); the alias thread always closes /dev/null; ProcProxy.wait closes every handle it opened", floor=4)
     ctx.rule("R5", "pipe ends are closed idempotently: the fd field is cleared under the lock before os.close; wrappers never own the fd; fds 0-2 and sys.std* are never closed", floor=7)
-    ctx.rule("R6", "process-wide state (cwd, sys.std*, terminal foreground group) is changed in xonsh/procs only inside a paired construct", floor=2)
+    ctx.rule("R6", "process-wide state (cwd, sys.std*, terminal foreground group) is changed in xonsh/procs only inside a paired construct; every way out of CommandPipeline.end (explicit raises included) hands the terminal back", floor=3)
 
     # ------------------------------------------------------------------ R1
     for rel, cname, roots in ((PO, "PopenThread", ["wait", "_clean_up"]), (PX, "ProcProxyThread", ["wait", "__del__"])):
@@ -148,7 +148,7 @@ def check(ctx):
         opens_before = any(any((call_name(c) or "").startswith(("SubprocSpec.build", "PipeChannel")) for c in calls_in(s)) for s in before)
         for h in t.handlers:
             if h.type is not None and unparse(h.type) == "BaseException":
-                closes = any(isinstance(s, ast.For) and unparse(s.iter) == "specs" and any(last_attr(c) == "close" for c in calls_in(s, local=False)) for s in h.body)
+                closes = any(isinstance(s, ast.For) and isinstance(s.iter, ast.Name) and s.iter.id in returned_names(c2s) and any(last_attr(c) == "close" for c in calls_in(s, local=False)) for s in h.body)
                 reraises = any(isinstance(s, ast.Raise) and s.exc is None for s in h.body)
                 ok = closes and reraises and not opens_before
                 why = f"closes={closes} reraises={reraises} resources_opened_before_try={opens_before}"
@@ -218,8 +218,10 @@ def check(ctx):
     ctx.ob("R4", f"{PX}:ProcProxyThread.run", "every exit of the alias thread passes _close_devnull()", ok, key="ProcProxyThread.run|devnull", where=loc(run), path=rcfg.fmt_path(path) if path else None)
     pw = px.func("ProcProxy.wait")
     pcfg = CFG(pw)
-    adds = [n for n in pcfg.nodes if n.kind == "stmt" and any(call_name(c) == "owned_handles.append" for c in calls_in(n.ast))]
-    closes = [n for n in pcfg.nodes if n.kind == "for" and unparse(n.ast.iter) == "owned_handles" and any(last_attr(c) in ("safe_fdclose", "close") for s in n.ast.body for c in calls_in(s))]
+    # the list of handles opened here: the local that a closing loop iterates
+    closes = [n for n in pcfg.nodes if n.kind == "for" and isinstance(n.ast.iter, ast.Name) and any(last_attr(c) in ("safe_fdclose", "close") for s in n.ast.body for c in calls_in(s))]
+    owned = {n.ast.iter.id for n in closes}
+    adds = [n for n in pcfg.nodes if n.kind == "stmt" and any(isinstance(c.func, ast.Attribute) and c.func.attr == "append" and isinstance(c.func.value, ast.Name) and c.func.value.id in owned for c in calls_in(n.ast))]
     ok = bool(adds) and bool(closes)
     if ok:
         ok, path = pcfg.must_pass(adds, lambda m_: m_ in closes, exits=("exit",))
@@ -289,6 +291,30 @@ def check(ctx):
     ctx.ob("R6", f"{PL}:CommandPipeline.end", "after a pipeline ended normally the controlling terminal is returned to the shell", ok, key="end|terminal")
     if n6 + 1 < 2:
         raise AnalysisError("R6 saw no process-wide state sites at all")
+    # ... and so does every explicit raise on the way out of end(): helpers are expanded (depth 3) so
+    # that it does not matter in which of end/_end/_raise_subproc_error the raise or the hand-back lives
+    from ..engine import inline
+
+    flat = inline.flatten(ctx.repo, endf, depth=3, skip=("_return_terminal", "tee_stdout", "print_exception"))
+    fcf = CFG(flat)
+    ctx.extra["end_expanded_helpers"] = sorted({h for _, h in flat._xv_expanded})
+    rt = [n for n in fcf.nodes if n.kind == "stmt" and any(call_name(c) == "self._return_terminal" for c in calls_in(n.ast))]
+    raises = [n for n in fcf.nodes if n.kind == "stmt" and isinstance(n.ast, ast.Raise)]
+    if not any("_raise_subproc_error" in h for _, h in flat._xv_expanded):
+        raise AnalysisError(f"{PL}:CommandPipeline.end: the raising step was not reached by helper expansion ({sorted({h for _, h in flat._xv_expanded})})")
+    for r in raises:
+        ok, path = fcf.must_pass([r], lambda m_: m_ in rt, exits=("raise",)) if rt else (False, None)
+        ctx.ob(
+            "R6",
+            f"{PL}:CommandPipeline.end",
+            f"`{short(r.ast, 60)}` (in {getattr(r.ast, '_xv_from', ('', 'end'))[1]}): the controlling terminal is handed back before the exception leaves end() — nothing re-acquires it afterwards, the shell would stay a background job of its own terminal",
+            ok,
+            key=f"end|raise-keeps-terminal|{getattr(r.ast, '_xv_from', ('', 'end'))[1]}",
+            where=loc(r.ast),
+            path=fcf.fmt_path(path) if path else None,
+        )
+    if len(raises) < 1:
+        raise AnalysisError(f"{PL}:CommandPipeline.end: no explicit raise found after helper expansion (2 confirmed by hand)")
 
 
 META = {
